@@ -261,30 +261,38 @@ def multinet_series(ctx, n_nets, n_steps):
         mn = create_empty_multinet("c13")
         add_nets_to_multinet(mn, power=power, gas=gas)
         ds = DFData(prof)
-        coupled_g2p_const_control(mn, 0, g2p_sink, g2p_efficiency=eff_g2p, power_led=True, profile_name="g2p_p_mw",
-                                  data_source=ds)
-        coupled_p2g_const_control(mn, 1, p2g_src, p2g_efficiency=eff_p2g, profile_name="p2g_p_mw", data_source=ds)
+        # which couplings are present: the gas net may or may not have another controller that touches it
+        variant = ["g2p", "g2p+p2g+sink", "g2p+p2g", "g2p", "p2g"][tried % 5]
+        if "sink" not in variant:
+            other = []
+        if "g2p" in variant:
+            coupled_g2p_const_control(mn, 0, g2p_sink, g2p_efficiency=eff_g2p, power_led=True,
+                                      profile_name="g2p_p_mw", data_source=ds)
+        if "p2g" in variant:
+            coupled_p2g_const_control(mn, 1, p2g_src, p2g_efficiency=eff_p2g, profile_name="p2g_p_mw", data_source=ds)
         ConstControl(power, "load", "p_mw", 0, profile_name="load_p_mw", data_source=ds)
         if other:
             ConstControl(gas, "sink", "mdot_kg_per_s", other[0], profile_name="sink_m", data_source=ds)
         ow_g = OutputWriter(gas, steps, output_path=None, log_variables=list(gas_log))
         ow_p = OutputWriter(power, steps, output_path=None, log_variables=[("res_bus", "vm_pu"), ("res_sgen", "p_mw")])
-        replay = {"gas_spec": spec, "p2g_source_junction": src_j, "g2p_sink": g2p_sink, "eff": [eff_g2p, eff_p2g],
+        replay = {"gas_spec": spec, "variant": variant, "p2g_source_junction": src_j, "g2p_sink": g2p_sink, "eff": [eff_g2p, eff_p2g],
                   "profile": json.loads(prof.to_json()), "steps": steps}
         # stand-alone calculations first: fresh nets carrying the row and the gas flows that follow from it
         refs, feasible = {}, True
         for t in steps:
             g, pw = copy.deepcopy(gas0), copy.deepcopy(power0)
-            pw.sgen.at[0, "p_mw"] = prof.at[t, "g2p_p_mw"] * 1.0
-            pw.load.at[1, "p_mw"] = prof.at[t, "p2g_p_mw"] * 1.0
             pw.load.at[0, "p_mw"] = prof.at[t, "load_p_mw"] * 1.0
             if other:
                 g.sink.at[other[0], "mdot_kg_per_s"] = prof.at[t, "sink_m"] * 1.0
             # G2PControlMultiEnergy (power led) / P2GControlMultiEnergy control_step
-            g.sink.at[g2p_sink, "mdot_kg_per_s"] = (pw.sgen.at[0, "p_mw"] * pw.sgen.at[0, "scaling"]) / \
-                ((hhv * 3600 / 1e3) * eff_g2p)
-            g.source.at[p2g_src, "mdot_kg_per_s"] = (pw.load.at[1, "p_mw"] * pw.load.at[1, "scaling"]) * \
-                (1e3 / (hhv * 3600)) * eff_p2g
+            if "g2p" in variant:
+                pw.sgen.at[0, "p_mw"] = prof.at[t, "g2p_p_mw"] * 1.0
+                g.sink.at[g2p_sink, "mdot_kg_per_s"] = (pw.sgen.at[0, "p_mw"] * pw.sgen.at[0, "scaling"]) / \
+                    ((hhv * 3600 / 1e3) * eff_g2p)
+            if "p2g" in variant:
+                pw.load.at[1, "p_mw"] = prof.at[t, "p2g_p_mw"] * 1.0
+                g.source.at[p2g_src, "mdot_kg_per_s"] = (pw.load.at[1, "p_mw"] * pw.load.at[1, "scaling"]) * \
+                    (1e3 / (hhv * 3600)) * eff_p2g
             if H.do_run(g, {})[0] != "ok":
                 feasible = False
                 break
@@ -324,7 +332,9 @@ def multinet_series(ctx, n_nets, n_steps):
                 ctx.violation({"kind": "multinet-ts-step-differs", "where": "res_bus.vm_pu"},
                               "multinet time series, step %d: logged bus voltages %r, stand-alone %r"
                               % (t, vm.tolist(), pw.res_bus.vm_pu.values.tolist()), replay)
-        ctx.case({"kind": "multinet", "gas": gen.describe(spec), "steps": steps, "eff": [eff_g2p, eff_p2g]}, True)
+        ctx.case({"kind": "multinet", "variant": variant, "gas": gen.describe(spec), "steps": steps,
+                  "eff": [eff_g2p, eff_p2g]}, True)
+        ctx.count("multinet_" + variant)
         ctx.count("multinet_series")
     return rows, series
 
@@ -348,9 +358,25 @@ def run(ctx):
     while cases < n_nets * 4 and tried < n_nets * 3 and time.time() < deadline:
         p = profs[tried % len(profs)]
         tried += 1
-        spec = gen.gen_net(ctx.rng, p)
+        two_areas = p != "heat" and ctx.rng.random() < 0.6
+        spec = gen.gen_net(ctx.rng, p, features={"island": True} if two_areas else None)
         net0 = gen.build(spec)
         kw = {"use_numba": False}
+        if two_areas:
+            # give the part that is not reached from the supply its own external grid: two supply areas
+            probe = copy.deepcopy(net0)
+            from harness import c12_hist as H0
+            if H0.do_run(probe, kw)[0] == "ok":
+                import numpy as np
+                dead = [int(j) for j in probe.res_junction.index[np.isnan(probe.res_junction.p_bar.values)]
+                        if bool(probe.junction.at[j, "in_service"])]
+                if dead:
+                    eg = net0.ext_grid.iloc[0]
+                    spec = dict(spec, ops=spec["ops"] + [["create_ext_grid", {
+                        "junction": ctx.rng.choice(dead), "p_bar": float(eg.p_bar), "t_k": float(eg.t_k),
+                        "index": int(max(net0.ext_grid.index)) + 1}]])
+                    net0 = gen.build(spec)
+                    ctx.count("two_supply_areas")
         log_vars = LOG
         if p == "heat":
             kw["mode"] = ctx.rng.choice(["sequential", "sequential", "bidirectional", "hydraulics"])
@@ -392,7 +418,7 @@ def run(ctx):
     ctx.corr("every row logged by run_timeseries == stand-alone pipeflow on a fresh copy (bit-identical); "
              "divergence flag / raised error as the stand-alone calculations predict", rows, n_v, "series %d" % cases)
     try:
-        mrows, mseries = multinet_series(ctx, 3 if ctx.quick else 25, 6 if ctx.quick else 12)
+        mrows, mseries = multinet_series(ctx, 4 if ctx.quick else 25, 6 if ctx.quick else 12)
         ctx.corr("multi-energy time series (power-led G2P + P2G): every logged gas row == stand-alone coupled "
                  "calculation (bit-identical), bus voltages rtol 1e-8", mrows, len(ctx.violations) - n_v,
                  "series %d" % mseries)
